@@ -41,6 +41,8 @@ type poolKey struct {
 	big    bool    // kNumber: |value| >= 2^53, spelled so that several keys are one float64
 	layout string  // kDate: which spelling
 	day    int     // kDate: days since 2000-01-01 (only the order matters)
+	// generated: a key of the size families (size.go), not of the hand-written pool
+	generated bool
 }
 
 var pool = []poolKey{
@@ -182,6 +184,7 @@ func calendarKey(s string, k kind, pos int) int {
 		if pool[i].kind != k || pool[i].pos != pos {
 			panic("harness: pool disagrees about " + s)
 		}
+		pool[i].generated = false // (also) a key of a calendar view
 		return i
 	}
 	pool = append(pool, poolKey{s: s, kind: k, pos: pos})
